@@ -21,7 +21,7 @@ from typing import Callable, List, Optional, Set, TextIO, Union
 import pysmt.operators as op
 from pysmt.environment import get_env
 from pysmt.walkers import TreeWalker, DagWalker, handles
-from pysmt.utils import quote
+from pysmt.utils import quote, smtlib_string_literal
 from pysmt.fnode import FNode
 from pysmt.smtlib.annotations import Annotations
 
@@ -168,7 +168,7 @@ class SmtPrinter(TreeWalker):
 
     @write_annotations
     def walk_str_constant(self, formula):
-        self.write('"' + formula.constant_value().replace('"', '""') + '"')
+        self.write(smtlib_string_literal(formula.constant_value()))
 
     def walk_forall(self, formula):
         return self._walk_quantifier("forall", formula)
@@ -555,7 +555,7 @@ class SmtDagPrinter(DagWalker):
 
     @write_annotations_dag
     def walk_str_constant(self, formula, **kwargs):
-        return '"' + formula.constant_value().replace('"', '""') + '"'
+        return smtlib_string_literal(formula.constant_value())
 
     def walk_forall(self, formula: FNode, args: None, **kwargs) -> str:
         return self._walk_quantifier("forall", formula, args)
